@@ -167,6 +167,8 @@ def sym_float(x):
         return core.lower(core.zreal(x))
     if isinstance(x, SymTensor):
         return sym_float(x.item())
+    if isinstance(x, np.ndarray) and x.dtype == object and x.size == 1:
+        return sym_float(x.reshape(-1)[0])
     from fractions import Fraction
     if isinstance(x, Fraction):
         return x
